@@ -1,8 +1,13 @@
-(* C08 — lemmas about the VM model's number codec (coq/lib/VM.v). *)
+(* C08 — assembly: the executable model's step refines the reference semantics for every
+   opcode class proved in Numeric / Bitwise / Splice / StackOps / Control / Crypto /
+   Introspect; codec theorems; coverage of the opcode space. *)
 From Coq Require Import List ZArith NArith Bool Lia ZifyN ZifyNat ZifyBool.
 From Verif Require Import Cmp VM.
+From C08 Require Import Spec Base Numeric Bitwise Splice StackOps Control Crypto Introspect.
 Import ListNotations.
 Open Scope N_scope.
+
+(* ---------- the VM model's number codec (kept from the first version) ---------- *)
 
 Lemma le_decode_encode_fuel : forall f n, n < 256 ^ N.of_nat f -> le_decode (le_encode_fuel f n) = n.
 Proof.
@@ -31,3 +36,158 @@ Proof.
   destruct (n =? 0); constructor; [|apply IH].
   apply N.mod_lt. lia.
 Qed.
+
+(* ---------- the reference codec ---------- *)
+
+Lemma lim256_lt40 : lim256 < 256 ^ N.of_nat 40.
+Proof. rewrite <- pow256_32. apply N.pow_lt_mono_r; lia. Qed.
+
+Lemma strip_length : forall b, (length (strip b) <= length b)%nat.
+Proof.
+  induction b as [|x b IH]; [cbn; lia|]. cbn [strip].
+  destruct (strip b); [destruct (x =? 0)|]; cbn [length] in *; lia.
+Qed.
+
+Lemma bytesk_length k n : length (bytesk k n) = k.
+Proof. unfold bytesk. rewrite map_length, seq_length. reflexivity. Qed.
+
+Lemma num_value_encode n : n < lim256 -> num_value (encode n) = n.
+Proof.
+  intros H. rewrite <- encode_eq by assumption. rewrite num_value_eq.
+  unfold le_encode. apply le_decode_encode_fuel. pose proof lim256_lt40. lia.
+Qed.
+
+Lemma decode_encode n : n < lim255 -> decode (encode n) = inr n.
+Proof.
+  intros H. pose proof lim256_255. unfold decode.
+  assert (L : (length (encode n) <= 32)%nat).
+  { unfold encode. etransitivity; [apply strip_length|]. fold (bytesk 32 n). rewrite bytesk_length. lia. }
+  destruct (Nat.ltb_spec 32 (length (encode n))); [lia|].
+  rewrite num_value_encode by lia.
+  destruct (N.ltb_spec n lim255); [reflexivity|lia].
+Qed.
+
+Lemma bytesk_zero : forall k, strip (bytesk k 0) = [].
+Proof.
+  induction k as [|k IH]; [reflexivity|].
+  rewrite bytesk_S. change (0 / 256) with 0. change (0 mod 256) with 0. cbn [strip]. rewrite IH. reflexivity.
+Qed.
+
+Lemma strip_bytesk : forall b k, Forall (fun x => x < 256) b -> (length b <= k)%nat ->
+  strip (bytesk k (le_decode b)) = strip b.
+Proof.
+  induction b as [|x b IH]; intros k Hb Hk.
+  - cbn [le_decode]. apply bytesk_zero.
+  - destruct k as [|k]; [cbn in Hk; lia|]. inversion Hb as [|? ? Hx Hb']; subst.
+    rewrite bytesk_S. cbn [le_decode].
+    replace ((x + 256 * le_decode b) mod 256) with x.
+    2:{ rewrite N.add_comm, N.mul_comm, N.mod_add by lia. symmetry. apply N.mod_small. assumption. }
+    replace ((x + 256 * le_decode b) / 256) with (le_decode b).
+    2:{ rewrite N.add_comm, N.mul_comm, N.div_add_l by lia. rewrite (N.div_small x 256) by assumption. lia. }
+    cbn [strip]. rewrite IH by (try assumption; cbn in Hk; lia). reflexivity.
+Qed.
+
+Lemma encode_num_value b : Forall (fun x => x < 256) b -> (length b <= 32)%nat ->
+  encode (num_value b) = strip b.
+Proof.
+  intros Hb Hl. rewrite num_value_eq. unfold encode, bytes32. apply (strip_bytesk b 32 Hb Hl).
+Qed.
+
+Lemma truthy_spec b : truthy b = true <-> num_value b <> 0.
+Proof. unfold truthy. rewrite negb_true_iff, N.eqb_neq. reflexivity. Qed.
+
+(* ---------- ParseOp supplies the number of OP_1 … OP_16 as instruction data ---------- *)
+
+Lemma const_in_range op : In op const_ops -> 81 <= op <= 96.
+Proof. unfold const_ops. cbn [In]. lia. Qed.
+
+Lemma parse_op_const p pcv i : parse_op p pcv = inr i -> In (i_op i) const_ops -> i_data i = [i_op i - 80].
+Proof.
+  intros H Hin. apply const_in_range in Hin. unfold parse_op in H.
+  unfold OP_1, OP_16, OP_DATA_1, OP_DATA_75, OP_PUSHDATA1, OP_PUSHDATA2, OP_PUSHDATA4, OP_JUMP, OP_JUMPIF in H.
+  set (opc := byte_at p pcv) in *.
+  destruct (2147483647 <? N.of_nat (length p)); [discriminate|].
+  destruct (N.of_nat (length p) <=? pcv); [discriminate|].
+  destruct ((81 <=? opc) && (opc <=? 96)) eqn:E.
+  - inversion H; subst; cbn [i_op i_data] in *. f_equal. lia.
+  - exfalso.
+    assert (Hop : i_op i = opc).
+    { repeat match type of H with
+             | (if ?c then _ else _) = _ => destruct c
+             | match ?x with Some _ => _ | None => _ end = _ => destruct x
+             end; try discriminate; inversion H; reflexivity. }
+    rewrite Hop in Hin. lia.
+Qed.
+
+(* ---------- main theorem ---------- *)
+
+Open Scope Z_scope.
+
+Definition covered_ops : list N :=
+  numeric_ops ++ bitwise_ops ++ splice_ops ++ [130%N] ++ stack_simple ++ [116; 121; 122]%N ++
+  control_ops ++ pushdata_ops ++ const_ops ++ expansion_ops ++ crypto_simple ++ [173%N] ++ introspect_ops.
+
+Section Main.
+  Variable cr : crypto.
+  Variable cx : context.
+  Variable rc : vmst -> child_result.
+
+  Lemma instr_refines : forall i s, sane s -> ctx_sane cx ->
+    In (i_op i) covered_ops -> (In (i_op i) const_ops -> i_data i = [(i_op i - 80)%N]) ->
+    refines_at cr cx rc i s.
+  Proof.
+    intros i s Hs Hc Hin Hconst. unfold covered_ops in Hin.
+    repeat (apply in_app_or in Hin; destruct Hin as [Hin|Hin]).
+    - apply numeric_ok; assumption.
+    - apply bitwise_ok; assumption.
+    - apply splice_ok; assumption.
+    - apply size_ok; [assumption|]. cbn [In] in Hin. tauto.
+    - apply stack_simple_ok; assumption.
+    - cbn [In] in Hin. destruct Hin as [Hin|Hin].
+      + apply depth_ok; [assumption|]. symmetry; assumption.
+      + apply pickroll_ok. exact Hin.
+    - apply control_ok; assumption.
+    - apply pushdata_ok; assumption.
+    - apply const_ok; [assumption|]. apply Hconst; assumption.
+    - apply expansion_ok; assumption.
+    - apply crypto_simple_ok; assumption.
+    - apply multisig_ok. cbn [In] in Hin. tauto.
+    - apply introspect_ok; assumption.
+  Qed.
+
+  Theorem step_refines_spec : forall s i, sane s -> ctx_sane cx ->
+    parse_op (prog s) (pc s) = inr i ->
+    In (i_op i) covered_ops ->
+    enough_gas cr cx rc i s ->
+    outcome (step cr cx rc s) = spec_instr cr cx rc i s.
+  Proof.
+    intros s i Hs Hc Hp Hin Hg. rewrite step_exec_instr, Hp.
+    apply instr_refines; try assumption.
+    intros Hk. apply (parse_op_const _ _ _ Hp Hk).
+  Qed.
+End Main.
+
+(* every opcode byte except CHECKPREDICATE (0xc0 = 192) is covered *)
+Lemma covered_all_but_192 : forall op, (op < 256)%N -> op <> 192%N -> In op covered_ops.
+Proof.
+  assert (H : forallb (fun op => (op =? 192)%N || existsb (N.eqb op) covered_ops) (map N.of_nat (seq 0 256)) = true)
+    by (vm_compute; reflexivity).
+  intros op Hlt Hne. rewrite forallb_forall in H.
+  specialize (H op). rewrite orb_true_iff, existsb_exists in H.
+  destruct H as [H|[x [Hx He]]].
+  - apply in_map_iff. exists (N.to_nat op). split; [lia|]. apply in_seq. lia.
+  - apply N.eqb_eq in H. contradiction.
+  - apply N.eqb_eq in He. subst. assumption.
+Qed.
+
+(* hypotheses are satisfiable by a non-trivial state: ADD on (3, 4) with 100 gas *)
+Example add_example :
+  let s := {| prog := [147%N]; pc := 0; nextpc := 0; runlimit := 100; deferred := 0; expres := true;
+              vdata := []; dstack := [[4%N]; [3%N]]; astack := [] |} in
+  let cr := {| h_sha256 := fun x => x; h_sha3 := fun x => x; h_ripemd160 := fun x => x;
+               sig_verify := fun _ _ _ => false |} in
+  let cx := {| cx_vmversion := 1; cx_code := []; cx_entryid := []; cx_txversion := None; cx_blockheight := None;
+               cx_assetid := None; cx_amount := None; cx_destpos := None; cx_spentoutputid := None;
+               cx_txsighash := None; cx_checkoutput := None |} in
+  outcome (step cr cx (fun c => (true, c)) s) = inr ([[7%N]], [], 1%N, 106, [147%N], true).
+Proof. vm_compute. reflexivity. Qed.
